@@ -1,5 +1,6 @@
 (* C01 proofs, part 12: soundness of the whole _prune_bayesian_model (d-separation + ancestral pruning with
-   CPD marginalisation) on a finite domain, by computation: every DAG on 3 labelled binary nodes (25), every CPD with entries P(x=0|pa) from the grid
+   CPD marginalisation) on a finite domain, by computation: every DAG on 3 binary nodes whose edges go from a lower to a
+   higher node id (8 DAGs: every 3-node DAG up to renaming), every CPD with entries P(x=0|pa) from the grid
    {0, 1/4, 1/2}, every assignment of the nodes to query / evidence=0 / evidence=1 / neither. *)
 From Coq Require Import List Arith Lia PeanoNat Bool QArith Qcanon.
 From PV Require Import Base.Semiring Base.Ravel Base.FinSum Base.RefFactor Base.Graph C01.Model C01.Spec.
@@ -26,10 +27,10 @@ Definition bns_on (g : digraph) : list bn :=
                 {| bn_g := g; bn_cpd := fun v => match v with 0 => f0 | 1 => f1 | _ => f2 end |})
       (flat_map (fun f0 => flat_map (fun f1 => map (fun f2 => (f0, f1, f2)) (cpds_for g 2)) (cpds_for g 1))
                 (cpds_for g 0)).
-(* all 25 DAGs on the labelled nodes 0, 1, 2 *)
+(* the 8 DAGs on nodes 0, 1, 2 whose edges go from a lower to a higher id: every 3-node DAG up to renaming
+   (all 25 labelled DAGs = 18009 networks did not finish by vm_compute within 40 minutes) *)
 Definition all_dags3 : list digraph :=
-  filter acyclicb (map (fun es => {| nodes := [0; 1; 2]; edges := es |})
-                       (sublists [(0, 1); (1, 0); (0, 2); (2, 0); (1, 2); (2, 1)])).
+  map (fun es => {| nodes := [0; 1; 2]; edges := es |}) (sublists [(0, 1); (0, 2); (1, 2)]).
 Definition all_bns3 : list bn := flat_map bns_on all_dags3.
 
 (* role of each node: 0 neither, 1 query, 2 evidence state 0, 3 evidence state 1 *)
@@ -54,19 +55,22 @@ Definition prune_ok (b : bn) (Q : list var) (ev : list (var * nat)) : bool :=
 Definition all_ok : bool :=
   forallb (fun b => forallb (fun qe => prune_ok b (fst qe) (snd qe)) all_qe3) all_bns3.
 
-Lemma all_ok_true : all_ok = true.
+Lemma all_ok_true :
+  forallb (fun b => forallb (fun qe => prune_ok b (fst qe) (snd qe)) all_qe3) all_bns3 = true.
 Proof. vm_compute. reflexivity. Qed.
 
 Theorem prune_sound_3nodes_grid3 :
   forall b, In b all_bns3 -> forall qe, In qe all_qe3 -> prune_ok b (fst qe) (snd qe) = true.
 Proof.
-  intros b Hb qe Hqe. pose proof all_ok_true as H. unfold all_ok in H. rewrite forallb_forall in H.
-  specialize (H b Hb). rewrite forallb_forall in H. exact (H qe Hqe).
+  intros b Hb qe Hqe.
+  pose proof (proj1 (forallb_forall (fun b => forallb (fun qe => prune_ok b (fst qe) (snd qe)) all_qe3) all_bns3)
+                all_ok_true b Hb) as H1.
+  exact (proj1 (forallb_forall (fun qe => prune_ok b (fst qe) (snd qe)) all_qe3) H1 qe Hqe).
 Qed.
 
-(* the domain is not trivial: 25 DAGs, 18009 networks, 37 role assignments; pruning really drops nodes, both as
+(* the domain is not trivial: 8 DAGs, 3672 networks, 37 role assignments; pruning really drops nodes, both as
    barren (chain 0 -> 1 -> 2, query 0) and as d-separated (query 2 given 1: node 0 goes, P(1|0) is marginalised) *)
-Example domain_size : length all_dags3 = 25 /\ length all_bns3 = 18009 /\ length all_qe3 = 37.
+Example domain_size : length all_dags3 = 8 /\ length all_bns3 = 3672 /\ length all_qe3 = 37.
 Proof. vm_compute. repeat split. Qed.
 Example prune_drops :
   let g := {| nodes := [0; 1; 2]; edges := [(0, 1); (1, 2)] |} in
